@@ -55,6 +55,28 @@ func (c *worker) loadBoth(stream, which string, data []byte, s sched, exactPulle
 		if impl != m {
 			c.res.mismatch(Mismatch{Seq: c.seq, Stream: stream, Input: map[string]interface{}{"loader": which, "data": shortHex(data), "sched": s}, Impl: short(impl, 300), Model: short(m, 300)})
 		}
+		// cross-check of the extraction of the io-stack model: for the loaders that never inflate, the runner's
+		// full answer (outcome, bytes pulled, what draining the returned stream gives) re-decided in the kernel
+		if (which == "jpeg" || which == "webp") && len(data) > 0 && len(data) <= 160 && len(s.Sizes) <= 40 && (len(data)*7+len(s.Sizes))%23 == 0 {
+			full := c.askInflate(fmt.Sprintf("meta_load %s %s %s", which, hx(data), s.wire()))
+			var pulled int
+			ok := strings.HasPrefix(full, "ok ")
+			if i := strings.Index(full, "pulled="); i >= 0 && strings.Contains(full, "replay=ok") {
+				fmt.Sscanf(full[i:], "pulled=%d", &pulled)
+				var sz []string
+				for _, v := range s.Sizes {
+					sz = append(sz, fmt.Sprint(v-1))
+				}
+				fa := "None"
+				if s.FailAfter >= 0 {
+					fa = fmt.Sprintf("(Some %d%%nat)", s.FailAfter)
+				}
+				want, wend := expectedReplay(data, s)
+				endc := map[string]string{"eof": "EOF", "fail": "IOFail"}[wend]
+				xcheck("meta_load", 16, fmt.Sprintf("(let r := Base {| rest := %s; sched := [%s]%%nat; eof_with_data := %v; fail_after := %s |} in let '(a, r', _) := load_with (fun _ => None) %s_prog %d%%nat r in (match a with Ok _ => true | Err _ => false end, (length (rest_of r) - base_rest_len r')%%nat, read_all r')) = (%v, %d%%nat, (%s, %s))",
+					coqBytes(data), strings.Join(sz, "; "), s.EOFWithData, fa, which, len(data)+1, ok, pulled, coqBytes(want), endc))
+			}
+		}
 	}
 	return o
 }
@@ -627,6 +649,9 @@ func init() {
 			}
 		}
 		c.runJobs(jobs)
+		if st := writeXCheck(c.out+"/Gen", "From Coq Require Import List ZArith NArith Bool. From Coq Require Import Strings.Byte. Import ListNotations.\nFrom PrismV Require Import IO.IO IO.Parse Meta.Meta.\nFixpoint base_rest_len (s : src) : nat := match s with Base b => length (rest b) | Multi _ i => base_rest_len i end.\nDefinition rest_of (s : src) : list byte := match s with Base b => rest b | Multi _ _ => [] end."); st != nil {
+			c.res.GenStages = append(c.res.GenStages, st)
+		}
 		// concrete source types (seekable or not, at an offset of a larger object, files, buffers)
 		for _, in := range inputs {
 			if len(in.data) > 20000 {
